@@ -352,6 +352,14 @@ fn string_from_attrs(param: &abi_ast::Param, emitter: &dyn Emitter) -> Result<Op
         let size = {
             let user_len = de.accept_value::<u32>("len")?;
             let user_bs = de.accept_value::<u32>("bs")?;
+            if let Some(bs) = user_bs {
+                if bs.value == 0 {
+                    return Err(emitter.as_sized().emit(error!(
+                        message("block size must be nonzero"),
+                        primary(bs, ""),
+                    )));
+                }
+            }
             match (user_len, user_bs, is_len_prefixed) {
                 (None, Some(bs), LenPrefixed(false)) => StringArgSize::ToBlobEnd {
                     block_size: bs.value as _,
@@ -378,6 +386,14 @@ fn string_from_attrs(param: &abi_ast::Param, emitter: &dyn Emitter) -> Result<Op
                 ))),
             }
         };
+
+        if let (StringArgSize::Fixed { nulless: true, .. }, Some(furibug)) = (&size, furibug) {
+            // the bug appends bytes after the string's terminator, and a nulless string has none
+            return Err(emitter.as_sized().emit(error!(
+                message("'furibug' cannot be used on a 'nulless' string"),
+                primary(furibug, ""),
+            )));
+        }
 
         Ok(Some(ArgEncoding::String {
             mask: {
